@@ -80,6 +80,10 @@ inline void yield_point(const char *tag)
     if (s.in_run()) s.yield(tag);
 }
 
+// set by the mutex wrapper when a deadlock was detected inside a nothrow C function
+std::string &pending_stall();
+std::exception_ptr &pending_error();
+
 // RAII: sanitizer happens-before edge helpers (no-ops outside TSan)
 void hb_release(void *addr);
 void hb_acquire(void *addr);
